@@ -222,7 +222,8 @@ type Conn struct {
 	wmu  sync.Mutex
 	hs   *hsState
 
-	Key       []byte // auth key in use on this connection (after handshake or first encrypted frame)
+	kmu       sync.Mutex
+	Key       []byte // auth key in use on this connection (after handshake or first encrypted frame); use KeySession() off the connection goroutine
 	Session   int64
 	PlainRecv int32 // plaintext frames received
 	EncRecv   int32
@@ -268,8 +269,10 @@ func (c *Conn) serve() {
 			c.S.emit("srv.badframe", map[string]interface{}{"conn": c.ID, "err": err.Error(), "len": len(frame), "hex": fmt.Sprintf("%x", clip(frame, 96))})
 			continue
 		}
+		c.kmu.Lock()
 		c.Key = key
 		c.Session = in.Session
+		c.kmu.Unlock()
 		atomic.AddInt32(&c.EncRecv, 1)
 		c.S.emit("srv.recv", map[string]interface{}{"conn": c.ID, "salt": fmt.Sprint(in.Salt), "session": fmt.Sprint(in.Session), "msg_id": fmt.Sprint(in.MsgID), "seq_no": in.SeqNo,
 			"ctor": ctorOf(in.Body), "len": len(in.Body), "pad": in.PadLen, "key_id": fmt.Sprintf("%x", frame[:8])})
@@ -337,14 +340,22 @@ type Out struct {
 	Body  []byte
 }
 
+// KeySession returns the key and session id last seen on this connection.
+func (c *Conn) KeySession() ([]byte, int64) {
+	c.kmu.Lock()
+	defer c.kmu.Unlock()
+	return c.Key, c.Session
+}
+
 // SendEncrypted seals and sends one message under the connection's key and the salt/session given.
 func (c *Conn) SendEncrypted(o Out, salt int64, kind string, extra map[string]interface{}) error {
-	if c.Key == nil {
+	key, session := c.KeySession()
+	if key == nil {
 		return errors.New("no key on this connection")
 	}
-	in := mtp.Inner{Salt: salt, Session: c.Session, MsgID: o.MsgID, SeqNo: o.SeqNo, Body: o.Body}
+	in := mtp.Inner{Salt: salt, Session: session, MsgID: o.MsgID, SeqNo: o.SeqNo, Body: o.Body}
 	pad := randBytes((16 - (32+len(o.Body))%16) % 16)
-	pkt := mtp.Seal(c.Key, in, 8, pad)
+	pkt := mtp.Seal(key, in, 8, pad)
 	d := map[string]interface{}{"conn": c.ID, "msg_id": fmt.Sprint(o.MsgID), "seq_no": o.SeqNo, "kind": kind, "len": len(o.Body), "ctor": ctorOf(o.Body)}
 	for k, v := range extra {
 		d[k] = v
